@@ -111,6 +111,7 @@ def build(tier="quick", seed=0):
     b.assume("triangle inequality in C and 'pow(x, a) -> infinity as x -> infinity for a > 0' turn the discharged piecewise bounds into G -> mu at high frequency")
     b.assume("legacy compliance functions are compared where their own clamps (eta w <= 2^-52, w tau zeta <= 2^-52 -> 1e-100) are inactive")
     b.assume("physical range of the statement: w in [1e-12, 1e2], mu in [1e3, 1e13], eta in [1, 1e30], offsets > 0, alpha in (0,1), zeta > 0")
+    b.replayer(f"{FLEG}::*", _replay_legacy)
     return b
 
 
@@ -307,8 +308,14 @@ def legacy(b):
     fact = T.tgamma_(alpha + 1)
     inl = {k: (Fn(FLEG, k), None) for k in ("maxwell", "voigt", "andrade")}
     g = dict(float_eps=FLOAT_EPS, find_factorial=lambda ex, node, x: T.tgamma_(sp.sympify(x) + 1))
-    from tpv.symex import _sh_cos, _sh_sin, _sh_abs as _abs
-    g["np"] = Namespace("np", {"abs": _abs, "cos": _sh_cos, "sin": _sh_sin, "pi": T.PI})
+    from tpv.symex import _sh_cos, _sh_sin, _sh_abs as _abs, _sh_sqrt, _sh_exp, _sh_log
+
+    def _sqrt(ex_, node, x):
+        x = sp.sympify(x)
+        if x.is_Rational and x >= 0 and sp.sqrt(x).is_Rational:
+            return sp.sqrt(x)
+        return _sh_sqrt(ex_, node, x)
+    g["np"] = Namespace("np", {"abs": _abs, "cos": _sh_cos, "sin": _sh_sin, "pi": T.PI, "sqrt": _sqrt, "exp": _sh_exp, "log": _sh_log})
     legacy_args = {"elastic": {}, "newton": {}, "maxwell": {}, "voigt": dict(voigt_compliance_offset=1 / cmu, voigt_viscosity_offset=ceta),
                    "burgers": dict(voigt_compliance_offset=1 / cmu, voigt_viscosity_offset=ceta), "andrade": dict(alpha=alpha, zeta=zeta),
                    "sundberg": dict(voigt_compliance_offset=1 / cmu, voigt_viscosity_offset=ceta, alpha=alpha, zeta=zeta)}
@@ -363,3 +370,38 @@ result = dict(G=[G.real, G.imag], GJ=[(G * J).real, (G * J).imag], absG_over_mu=
             rec["confirmed"] = "exception" in out or "crash" in out
         return rec
     return rp
+
+
+_LEGACY_NATIVE = r'''
+import numpy as np
+from TidalPy.rheology.complex_compliance import compliance_models as L
+from TidalPy.rheology.models import Maxwell, Voigt, Burgers, Andrade, SundbergCooper
+fails = []
+mu, eta = 5.0e10, 1.0e19
+for w in (1e-10, 1.4e-8, 1e-6, 1e-3):
+    for (vc, vv, al, ze) in ((0.2, 0.02, 0.3, 1.0), (0.5, 0.1, 0.2, 10.0), (3.0, 0.3, 0.4, 1.0e-2)):
+        pairs = (("maxwell", L.maxwell(w, 1 / mu, eta), Maxwell()(w, mu, eta)),
+                 ("voigt", L.voigt(w, 1 / mu, eta, vc, vv), Voigt((1 / vc, vv))(w, mu, eta)),
+                 ("burgers", L.burgers(w, 1 / mu, eta, vc, vv), Burgers((1 / vc, vv))(w, mu, eta)),
+                 ("andrade", L.andrade(w, 1 / mu, eta, al, ze), Andrade((al, ze))(w, mu, eta)),
+                 ("sundberg", L.sundberg(w, 1 / mu, eta, vc, vv, al, ze), SundbergCooper((1 / vc, vv, al, ze))(w, mu, eta)))
+        for nm, J, Gc in pairs:
+            p = complex(J) * complex(Gc)
+            if abs(p - 1) > 1e-9: fails.append([nm, "w=%g offsets=(%g,%g) alpha=%g zeta=%g: J_legacy * G_compiled = %r" % (w, vc, vv, al, ze, p)])
+result = dict(failures=fails[:8], n=len(fails))
+'''
+
+
+def _replay_legacy(ob, res):
+    from tpv import native
+    out = native.run(dict(code=_LEGACY_NATIVE), timeout=600)
+    rec = dict(replayed=True, native=out)
+    if "result" not in out:
+        rec["confirmed"] = True
+        rec["detail"] = "the real functions raised on the sample inputs"
+        return rec
+    name = ob.fn.split("::")[-1]
+    hits = [f for f in out["result"]["failures"] if f[0] == name]
+    rec["confirmed"] = bool(hits)
+    rec["detail"] = hits[:3]
+    return rec
